@@ -53,6 +53,9 @@ func (p *parseContext) DeepestError(err error) error {
 // Defer adds a function to be applied once a branch has been picked.
 func (p *parseContext) Defer(tokens []lexer.Token, strct reflect.Value, field structLexerField, fieldValue []reflect.Value) {
 	p.apply = append(p.apply, &contextFieldSet{tokens, strct, field, fieldValue})
+	if verifEnabled {
+		verifEvent("defer", int(p.RawCursor())-len(tokens), int(p.RawCursor()), len(fieldValue), 0)
+	}
 }
 
 // Apply deferred functions.
@@ -68,6 +71,9 @@ func (p *parseContext) Apply() error {
 
 // ApplyFrom applies, and removes, the deferred captures added since "from".
 func (p *parseContext) ApplyFrom(from int) error {
+	if verifEnabled {
+		verifEvent("apply", len(p.apply)-from, 0, 0, 0)
+	}
 	pending := p.apply[from:]
 	p.apply = p.apply[:from]
 	for _, apply := range pending {
@@ -80,6 +86,9 @@ func (p *parseContext) ApplyFrom(from int) error {
 
 // Branch accepts the branch as the correct branch.
 func (p *parseContext) Accept(branch *parseContext) {
+	if verifEnabled {
+		verifEvent("accept", int(branch.RawCursor()), branch.Cursor(), len(branch.apply), len(p.apply))
+	}
 	p.apply = append(p.apply, branch.apply...)
 	p.PeekingLexer = branch.PeekingLexer
 	p.captureStart = branch.captureStart
@@ -94,6 +103,9 @@ func (p *parseContext) Branch() *parseContext {
 	branch := &parseContext{}
 	*branch = *p
 	branch.apply = nil
+	if verifEnabled {
+		verifEvent("branch", int(p.RawCursor()), p.Cursor(), 0, 0)
+	}
 	return branch
 }
 
@@ -126,8 +138,14 @@ func (p *parseContext) Stop(err error, branch *parseContext) bool {
 		p.deepestErrorDepth = maxInt(branch.PeekingLexer.Cursor(), branch.deepestErrorDepth)
 	}
 	if !p.hasInfiniteLookahead() && branch.PeekingLexer.Cursor() > p.PeekingLexer.Cursor()+p.lookahead {
+		if verifEnabled {
+			verifEvent("stop", branch.Cursor(), p.Cursor(), 1, 0)
+		}
 		p.Accept(branch)
 		return true
+	}
+	if verifEnabled {
+		verifEvent("stop", branch.Cursor(), p.Cursor(), 0, 0)
 	}
 	return false
 }
